@@ -51,16 +51,34 @@ def mirror_cases(draw):
                                conventions="per-image"))
     pipe = draw(gen.legal_pipeline(validation=True, repeat_validation=True))
     a = draw(st.integers(-4, 2))
-    return {"pair": pair, "pipeline": pipe, "disp": gen.clamp_interval([a, a + draw(st.integers(0, 5))], pair["W"], pipe)}
+    out = {"pair": pair, "pipeline": pipe, "disp": gen.clamp_interval([a, a + draw(st.integers(0, 5))], pair["W"], pipe)}
+    if draw(st.integers(0, 4)) == 0:
+        # multiband images whose files store the bands in different orders: the band is selected by name on each image
+        nb = draw(st.sampled_from([2, 3]))
+        out["pipeline"] = [[n, c] for n, c in pipe if n.split(".")[0] != "aggregation"]  # cbca is a mono-band step
+        out["mb"] = {"nb": nb, "offsets": draw(st.lists(st.integers(0, 9), min_size=nb, max_size=nb, unique=True)),
+                     "perm": draw(st.permutations(list(range(nb)))), "band": draw(st.integers(0, nb - 1))}
+        out["pipeline"][0][1]["band"] = ["r", "g", "b"][out["mb"]["band"]]
+    return out
 
 
 def mirror_body(ctx: Ctx, p: dict) -> None:
     left, right, ml, mr = gen.materialise_pair(p["pair"])
+    bands = rbands = None
+    if p.get("mb"):
+        names = ["r", "g", "b"][:p["mb"]["nb"]]
+        # band k = the scene plus an offset (and a band-dependent gain, so that bands are not interchangeable)
+        lstack = [left * (1 + k) + o for k, o in enumerate(p["mb"]["offsets"])]
+        rstack = [right * (1 + k) + o for k, o in enumerate(p["mb"]["offsets"])]
+        bands, rbands = names, [names[i] for i in p["mb"]["perm"]]
+        left = np.stack(lstack).astype(np.float32)
+        right = np.stack([rstack[i] for i in p["mb"]["perm"]]).astype(np.float32)
     pipe = gen.pipe_dict(p["pipeline"])
     a, b = p["disp"]
-    A = drive.run_pipeline(left, right, pipe, (a, b), msk_left=ml, msk_right=mr, **gen.conv_kwargs(p["pair"]))
-    B = drive.run_pipeline(right, left, gen.pipe_dict(p["pipeline"]), (-b, -a), msk_left=mr, msk_right=ml,
-                           **gen.conv_kwargs(p["pair"], swap=True))
+    A = drive.run_pipeline(left, right, pipe, (a, b), msk_left=ml, msk_right=mr, bands=bands, right_bands=rbands,
+                           **gen.conv_kwargs(p["pair"]))
+    B = drive.run_pipeline(right, left, gen.pipe_dict(p["pipeline"]), (-b, -a), msk_left=mr, msk_right=ml, bands=rbands,
+                           right_bands=bands, **gen.conv_kwargs(p["pair"], swap=True))
     if "disparity_map" not in A.right or "disparity_map" not in B.right:
         ctx.violation("C08/right-products-missing", "a validation step is configured but the right dataset is empty")
         return
@@ -72,7 +90,7 @@ def mirror_body(ctx: Ctx, p: dict) -> None:
     vm = A.right["validity_mask"].data
     off = int(A.right.attrs["offset_row_col"])
     core = vm[off:vm.shape[0] - off, off:vm.shape[1] - off] if off else vm
-    nt = bool((left != right).any() and core.size and ((core & 0b1111000011) == 0).any() and ((core & 0b1111000011) != 0).any())
+    nt = bool((left.shape != right.shape or (left != right).any()) and core.size and ((core & 0b1111000011) == 0).any() and ((core & 0b1111000011) != 0).any())
     names = [n.split(".")[0] for n, _ in p["pipeline"]]
     classes = []
     if any("interpolated_disparity" in c for _, c in p["pipeline"]):
@@ -93,6 +111,8 @@ def mirror_body(ctx: Ctx, p: dict) -> None:
         classes.append("mask")
     if mr is not None and "valid_right" in p["pair"]:
         classes.append("right-mask-own-convention")
+    if p.get("mb"):
+        classes.append("multiband" + ("-other-band-order" if list(p["mb"]["perm"]) != sorted(p["mb"]["perm"]) else ""))
     ctx.case(p, nontrivial=nt, classes=classes)
 
 
